@@ -38,6 +38,8 @@ def cfg_name(c: Dict[str, Any]) -> str:
         x += f" cancel{c['cancel']}"
     if c.get("timeout") is not None:
         x += f" timeout{c['timeout']}"
+    if c.get("polls"):
+        x += f" polls{c['polls']}"
     return x
 
 
@@ -89,10 +91,12 @@ def make_tasks(env: Env, cfg: Dict[str, Any], ch: AsyncChannel) -> Dict[str, Any
         await env.point(f"s{sid}")
         env.log("send_from_call", sid, items)
         src: Any = items
-        if mode == "send_from_async":
+        if mode in ("send_from_async", "send_from_async_raise"):
             async def agen():
-                for it in items:
+                for k, it in enumerate(items):
                     await env.point(f"s{sid}.gen")
+                    if mode == "send_from_async_raise" and k == len(items) - 1:
+                        raise RuntimeError("source failed")  # after the earlier items were handed over
                     yield it
             src = agen()
         try:
@@ -102,6 +106,10 @@ def make_tasks(env: Env, cfg: Dict[str, Any], ch: AsyncChannel) -> Dict[str, Any
                 env.log("close")
         except ChannelClosed:
             env.log("send_from_rejected", sid, items)
+        except RuntimeError:
+            # the source failed: what it had yielded before was sent; the channel stays usable
+            env.log("sent_all", sid, items[:-1])
+            env.log("source_raised", sid)
 
     async def closer():
         await env.point("closer")
@@ -113,15 +121,18 @@ def make_tasks(env: Env, cfg: Dict[str, Any], ch: AsyncChannel) -> Dict[str, Any
             await env.point(f"r{rid}")
             await ServiceStub._send_messages(FakeStream(env, rid), ch)
             return
-        it = ch.__aiter__() if kind == "aiter" else None
+        it = ch.__aiter__() if kind in ("aiter", "mixed") else None
+        first = True
         while True:
             await env.point(f"r{rid}")
             env.log("recv_call", rid)
             try:
-                if kind == "aiter":
+                # 'mixed': one receive() call, then iteration
+                if kind == "aiter" or (kind == "mixed" and not first):
                     coro = it.__anext__()
                 else:
                     coro = ch.receive()
+                first = False
                 if timeout:
                     x = await asyncio.wait_for(coro, timeout=1.0)
                 else:
@@ -135,10 +146,16 @@ def make_tasks(env: Env, cfg: Dict[str, Any], ch: AsyncChannel) -> Dict[str, Any
             except asyncio.TimeoutError:
                 env.log("timeout", rid)
                 raise
-            if x is None and kind == "receive":
+            if x is None and kind in ("receive", "mixed"):
                 env.log("recv_none", rid)
                 return
             env.log("recv", rid, x)
+
+    async def poller():
+        # closed() and done() are observers: monotone, and done() implies closed()
+        for _ in range(int(cfg.get("polls", 0))):
+            await env.point("poller")
+            env.log("poll", bool(ch.closed()), bool(ch.done()))
 
     async def canceller(rid: int):
         await env.point("canceller")
@@ -155,6 +172,8 @@ def make_tasks(env: Env, cfg: Dict[str, Any], ch: AsyncChannel) -> Dict[str, Any
         tasks[f"closer{extra}"] = loop.create_task(closer())
     if cfg.get("cancel") is not None:
         tasks["canceller"] = loop.create_task(canceller(cfg["cancel"]))
+    if cfg.get("polls"):
+        tasks["poller"] = loop.create_task(poller())
     return tasks
 
 
@@ -330,6 +349,20 @@ def judge(cfg: Dict[str, Any], res: Dict[str, Any]) -> List[Tuple[str, str]]:
                 out.append(("task-exception", f"{name} ended as {st}"))
     for e in res["loop_exceptions"]:
         out.append(("loop-exception", e))
+    polls = [(i, e[1], e[2]) for i, e in enumerate(log) if e[0] == "poll"]
+    for (i, c, d) in polls:
+        if d and not c:
+            out.append(("observer-inconsistent", f"done() is True while closed() is False (log index {i})"))
+        if close_idx is not None and i > close_idx and not c:
+            out.append(("observer-inconsistent", f"closed() is False after close() returned (log index {i})"))
+        if close_idx is not None and i < close_idx and c and not any(e[0] == "close" for e in log[:i]):
+            out.append(("observer-inconsistent", f"closed() is True before any close() (log index {i})"))
+    # (done() itself may legitimately go back to False: a send that passed the closed check before
+    # close() and was blocked on a full buffer completes afterwards - the property only speaks of
+    # sends that COMPLETED before the close.  A first version demanded monotone done(): false alarm.)
+    for (i1, c1, d1), (i2, c2, d2) in zip(polls, polls[1:]):
+        if c1 and not c2:
+            out.append(("observer-not-monotone", f"closed() went from True back to False"))
     # exactly-once delivery of everything sent before close (receivers or drain)
     for it in sorted(must):
         if it not in got and it not in res["drained"]:
@@ -392,9 +425,9 @@ def configs(tier: str) -> List[Tuple[Dict[str, Any], Optional[int], int]]:
     out: List[Tuple[Dict[str, Any], Optional[int], int]] = []
     FULL = None
 
-    def add(senders, receivers, closer=True, buffer=0, cancel=None, timeout=None, bound=FULL, cap=400000, closers=1):
+    def add(senders, receivers, closer=True, buffer=0, cancel=None, timeout=None, bound=FULL, cap=400000, closers=1, polls=0):
         out.append(({"senders": senders, "receivers": receivers, "closer": closer, "buffer": buffer,
-                     "cancel": cancel, "timeout": timeout, "closers": closers}, bound, cap))
+                     "cancel": cancel, "timeout": timeout, "closers": closers, "polls": polls}, bound, cap))
 
     quick = tier == "quick"
     kinds = ["receive", "aiter"]
@@ -427,6 +460,19 @@ def configs(tier: str) -> List[Tuple[Dict[str, Any], Optional[int], int]]:
     add([["send", 1], ["send", 1]], ["receive"])
     add([["send", 1], ["send", 1]], ["receive", "aiter"], bound=3 if quick else 5)
     add([["send", 2], ["send", 1]], ["aiter"], bound=3 if quick else 5)
+    add([["send", 1], ["send", 1]], ["receive"], buffer=1)
+    add([["send", 2], ["send", 1]], ["receive", "aiter"], buffer=1, bound=2 if quick else 4)
+    # three receivers, two items; a receiver that calls receive() once and then iterates
+    add([["send", 2]], ["receive", "aiter", "receive"], bound=2 if quick else 3)
+    add([["send", 2]], ["mixed"])
+    add([["send", 3]], ["mixed", "receive"], bound=3 if quick else 4)
+    # an async source that fails after its first item (the channel must stay usable)
+    add([["send_from_async_raise", 2]], ["receive"])
+    add([["send_from_async_raise", 2], ["send", 1]], ["aiter"], bound=3 if quick else 5)
+    # closed() / done() observed by a polling task between the other tasks' steps
+    add([["send", 1]], ["receive"], polls=2)
+    add([["send", 2]], ["aiter"], buffer=1, polls=2, bound=4 if quick else FULL)
+    add([["send_from_close", 2]], ["receive"], closer=False, polls=2)
     # cancellation of one receiver at any point
     for k in kinds:
         add([["send", 1]], [k], cancel=0)
